@@ -8,7 +8,11 @@
      xref_type            := XTable | XStream            (Document.reference_table.cross_reference_type)
      save x d : save_out  -- so_status (SaveOk | SaveInvalidMark | SavePanic), so_bytes (every byte
                              handed to the sink, also on failure), so_doc (the document afterwards:
-                             save_internal mutates trailer and, for XStream, max_id)
+                             save_internal mutates max_id, trailer and, for XStream, max_id again)
+                             = save_core x (raise_max_id d): since /repo 'fix: save raises max_id to the
+                             largest object number' the first statement of save_internal is
+                             max_id := max(max_id, last key of objects); save_core is the rest (the whole
+                             function before that repair)
      save_table  d : list byte := so_bytes (save XTable d)
      save_stream d : list byte := so_bytes (save XStream d)
      save_body d          -- header, binary mark and the indirect objects, with the byte counter
@@ -218,7 +222,7 @@ Definition xstream_parts (d : doc) (x : xmap) (xref_start32 : N) : dict * bytes 
 Inductive save_status := SaveOk | SaveInvalidMark | SavePanic.
 Record save_out := { so_status : save_status; so_bytes : bytes; so_doc : doc }.
 
-Definition save (xt : xref_type) (d : doc) : save_out :=
+Definition save_core (xt : xref_type) (d : doc) : save_out :=
   (* Xref::new(self.max_id + 1, ..): u32 addition, overflow checks on *)
   if u32_top <=? d_max_id d then {| so_status := SavePanic; so_bytes := []; so_doc := d |}
   else if negb (binary_mark_ok (d_binary_mark d)) then
@@ -242,6 +246,14 @@ Definition save (xt : xref_type) (d : doc) : save_out :=
                        startxref_bytes xref_start;
            so_doc := with_trailer d t (d_max_id d + 1) |}
     end.
+
+(* self.max_id = self.objects.keys().next_back().map_or(self.max_id, |id| self.max_id.max(id.0)):
+   the objects are a BTreeMap ordered by (number, generation), the last key carries the largest number *)
+Definition last_object_number (objs : objmap) : N := fold_left (fun a io => N.max a (fst (fst io))) objs 0.
+Definition raise_max_id (d : doc) : doc :=
+  with_trailer d (d_trailer d) (N.max (d_max_id d) (last_object_number (d_objects d))).
+
+Definition save (xt : xref_type) (d : doc) : save_out := save_core xt (raise_max_id d).
 
 Definition save_table (d : doc) : bytes := so_bytes (save XTable d).
 Definition save_stream (d : doc) : bytes := so_bytes (save XStream d).
